@@ -106,6 +106,64 @@ CHECKS = {
              "it is measured, not proved (see DESIGN 6 C08). Trusted: translator (dump_tables.cpp + params2coq.py), Coq kernel + vm_compute.",
         technique="Coq proof by computation (vm_compute over Q) on tables regenerated from the source by a translator",
         ref="6 C08"),
+    "C09": dict(
+        text="Coq (every commutative ring): every conservation law of the stoichiometry annihilates the forcing the model "
+             "computes (C09_forcing_conserves_linear_invariants, on top of C01's mass-action theorem). On the "
+             "implementation: the assembled solvers (5 Rosenbrock sets + backward Euler, random configuration) on random "
+             "mechanisms that conserve a positive weighted sum by construction, several calls, non-clipping overload: "
+             "|w.y_after - w.y_before| <= 1e-9 sum|w_i y_i|.",
+        note="PARTIAL: conservation through the stage / Newton updates (w.K_i = 0) is checked by the oracle, not yet a theorem.",
+        technique="Coq proof (ring, column-space argument) + conservation oracle on the assembled solvers",
+        ref="6 C09"),
+    "C10": dict(
+        text="Coq: the clamp of Solver::Solve leaves no value below zero for any arithmetic (NaN included); a Rosenbrock run "
+             "whose error norm is NaN/Inf at any attempt is never Converged (any policies, any history). The clause "
+             "'Converged implies finite' fails on the implementation for an unread +Inf species (Rosenbrock) and for "
+             "non-finite inputs (backward Euler): recorded as known findings with discriminating keys. Tie: scripted "
+             "Rosenbrock runs with NaN/Inf error norms (exact trace equality); oracle: assembled solvers on inputs with "
+             "NaN/Inf/negative/1e300/unset conditions: no negative value after Solve, Converged => finite, non-finite "
+             "input never Converged.",
+        note="PARTIAL: 'Converged implies finite' is refuted (known findings), not proved. Trusted as C05/C06.",
+        technique="Coq proof (clamp lemma, loop invariant) + scripted-policy tie + special-value oracle",
+        ref="6 C10"),
+    "C11": dict(
+        text="Coq: for backward Euler, any policies for which Fill(0) forgets and Factor overwrites L/U: Solve's status, "
+             "final time, statistics, every policy call and the resulting concentrations are the same for two States "
+             "agreeing on the concentrations, whatever their Jacobian / L / U / Yn / forcing held "
+             "(C11_backward_euler_ignores_scratch, bisimulation over every history). Implementation: sequences of "
+             "problems on one State with every scratch member overwritten by NaN/1e300 before every Solve vs fresh "
+             "States, bit-for-bit comparison of results, statistics and rate constants, both integrators, 32 configurations.",
+        note="PARTIAL: the Rosenbrock analogue (stage vectors written before read) is validated bitwise, not yet a theorem.",
+        technique="Coq proof (bisimulation invariant) + poisoned-scratch bitwise oracle on the assembled solvers",
+        ref="6 C11"),
+    "C12": dict(
+        text="Coq (any arithmetic): forcing and Jacobian do not depend on the dense layout / vector length "
+             "(C12_*_does_not_depend_on_layout); with C05 the factored matrix is the same expression for the separate "
+             "and in-place linear solvers. Implementation: each problem solved with 3-6 configurations of the cross "
+             "product {row-major, L=2,3,4} x {CSR, CSC} x 4 LU x reorder, concentrations by name compared at 1e-7. The "
+             "separate-vs-in-place disagreement after two rejections found earlier is fixed (fix: e318cbe).",
+        note="PARTIAL: the composition through the four LU algorithms depends on C03's missing theorem; rounding-level "
+             "agreement is measured, not proved.",
+        technique="Coq proof (layout-independence corollaries) + cross-configuration oracle on the assembled solvers",
+        ref="6 C12"),
+    "C13": dict(
+        text="Coq (any arithmetic, any layout, any cell count incl. partial groups): forcing and Jacobian of cell c are "
+             "functions of cell c's inputs only (C13_*_depends_on_that_cell_only). Implementation: N in 1..3L+1 identical "
+             "cells are bit-identical to each other and agree with a single cell; rate constants of a cell are "
+             "bit-identical whatever the other cells hold.",
+        note="LU / linear-solve cell locality is tied by C03/C04's exact Z_p comparison over partial groups, not proved here.",
+        technique="Coq proof (cell-locality corollaries of the slot theorems) + identical-cells oracle",
+        ref="6 C13"),
+    "C14": dict(
+        text="Coq: the reordering routine's schema returns a permutation for EVERY pivot heuristic and every n "
+             "(C14_reordering_returns_a_permutation); with duplicate-free names and any permutation the name->index map "
+             "is a bijection agreeing with the variable names, reorder on or off (C14_species_map_is_a_bijection). "
+             "Implementation: built solvers for random listing permutations x reorder x layouts: map bijective and "
+             "consistent with variable_names_, tolerances by name, results by name equal; the real "
+             "DiagonalMarkowitzReorder on all patterns n<=3/4 returns a permutation.",
+        note="The by-name equivariance of the solution relies on C12 (partial). Non-gas-phase tolerance lookup: see C20.",
+        technique="Coq proof (permutation invariants) + by-name oracle on the assembled solvers",
+        ref="6 C14"),
     "C19": dict(
         text="Coq theorems: every logical element of a dense matrix has its own in-range slot in every layout "
              "(injectivity + range for row-major and grouped, any L>0, any shape); the Axpy/ForEach loops visit exactly the "
